@@ -106,6 +106,7 @@ def cases_for(afi: int):
             comms = [(65000, i) for i in range(count)]
             add('attribute-size', pos, True, f'route {base_prefix} next-hop {nh} community [ ' + ' '.join(f'{a}:{b}' for a, b in comms) + ' ]', intent(communities=comms))
     # structural faults
+    add('structure', 'no-nexthop', False, f'route {base_prefix} med 5', None)  # nothing to put in NEXT_HOP / MP_REACH_NLRI
     add('structure', 'missing-nexthop-value', False, f'route {base_prefix} next-hop', None)
     add('structure', 'missing-bracket', False, f'route {base_prefix} next-hop {nh} community [ 1:1', None)
     add('structure', 'unknown-keyword', False, f'route {base_prefix} next-hop {nh} bogus-keyword 5', None)
